@@ -846,6 +846,12 @@ class MemorizedFunc(Logger):
         """
         call_id = (self.func_id, self._get_args_id(*args, **kwargs))
 
+        # The output is stored next to the function code recorded in the
+        # cache: make sure that this code is the one of self.func (wiping
+        # the results of another version of the function otherwise), else a
+        # later lookup would attribute the output to the wrong code.
+        self._check_previous_func_code(stacklevel=3)
+
         # Return the output and the metadata
         return self._call(call_id, args, kwargs)
 
